@@ -23,8 +23,12 @@ Three ties + oracles (all oracles are model-free, on observations of the real co
     tasks of their own when there is none, as in a fresh thread) - their exact placement is the core-model tie.
     Ties: the sequentialised program on the core model (Driver/Sys.lean: `.serializeAs`/`.continueWith`) emits the
     same messages; the parser model (Driver/C09.lean) yields the same tasks on the same merge orders.
-(c) preserve_context alone: identity without a current action, pass-through, second call; the race on one
-    callable is `_once.run_once_race` (line-level scheduler, real threads, model Driver/Once.lean).
+(c) preserve_context alone: identity without a current action; pass-through of result, exception and arguments for
+    wrapped plain functions, functions whose parameters are named like the wrapper's own names (`f`, `self`, `args`,
+    `kwargs`, `action`, `task_id`; called by keyword), functools.partial objects, instances with __call__, builtin
+    functions and bound methods of C types; called in a thread, a fresh context, inline, in a copied context, or by
+    2-4 threads at once; every call but the one that runs the function raises TooManyCalls and nothing else.  The
+    exhaustively scheduled race on one callable is `_once.run_once_race` (line-level scheduler, model Driver/Once.lean).
 """
 import contextvars
 import copy
@@ -60,7 +64,8 @@ RULE = ("(a) levels: length 0..8 (sometimes 50..300), components drawn from {0, 
         "destination (mask of 1-3 calls, one of them the end/start message of a continued action or the end of a local one; hand-offs of those "
         "programs run one after the other so that the mask denotes the same messages in the model run); merge orders: both concatenations, "
         "perfect interleave, 20 (quick) / 500 for the first 80 programs and 12 for the others (thorough) seeded shuffles per program; non-trivial = >= 2 hops or >= 2 ids from one action "
-        "or a hand-off below depth 1. (c) schedules of 2-4 threads calling one preserved callable (see _once.py). Distinct by canonical hash.")
+        "or a hand-off below depth 1. (c) 120 / 1500 preserve_context scenarios: kind of wrapped callable x keyword names x way of calling x 1-4 callables "
+        "x 1-4 calls each; schedules of 2-4 threads calling one preserved callable (see _once.py). Distinct by canonical hash.")
 TRUSTED = ["uuid4() does not collide and never contains '@' (it is hex digits and dashes)",
            "threading.Thread / contextvars: a new thread starts with an empty eliot context",
            "the hand-off of the id itself (queue, argv, network) delivers the bytes or the text unchanged",
@@ -1109,7 +1114,7 @@ def real_steps(order, index):
 def run_handoffs(ctx):
     rng = ctx.rng("programs")
     mrng = ctx.rng("merges")
-    n = ctx.budget(250, 1200)
+    n = ctx.budget(220, 1200)
     progs = []
     for _ in range(n):
         prog = gen_program(rng, ctx.quick)
@@ -1207,23 +1212,64 @@ def run_handoffs(ctx):
 # (c) preserve_context alone
 # =============================================================================================
 
+KW_POOL = ["a", "b", "f", "self", "args", "kwargs", "action", "task_id"]
+PY_KINDS = ("function", "named", "partial", "instance")
+
+
 def preserve_case(case):
-    """One sequential scenario on the real code. Returns observations."""
+    """One scenario on the real code. Returns observations.
+    kind of the wrapped callable: a plain function, a function with parameters named like the wrapper's own locals
+    (called by keyword), a functools.partial, an instance with __call__, a builtin function, a bound method of a C
+    type.  how: called in a new thread / a fresh context / inline inside the originating action / in a thread in a
+    copy of the originating context / by `calls` threads at once (race)."""
     import eliot
-    from eliot import MemoryLogger
+    import functools
+    import operator
     from eliot._action import TooManyCalls
-    import contextvars
 
     o = {}
+    kind = case.get("kind_f", "function")
     ret = object()
     exc = KeyError("boom") if case["exc"] else None
     calls = []
+    MISSING = object()
 
     def f(*a, **k):
         calls.append([list(a), dict(k)])
         if exc is not None:
             raise exc
         return ret
+
+    def named(f=MISSING, self=MISSING, args=MISSING, kwargs=MISSING, action=MISSING, task_id=MISSING, a=MISSING, b=MISSING):
+        given = dict(f=f, self=self, args=args, kwargs=kwargs, action=action, task_id=task_id, a=a, b=b)
+        calls.append([[], {k: v for k, v in given.items() if v is not MISSING}])
+        if exc is not None:
+            raise exc
+        return ret
+
+    class Inst(object):
+        def __call__(*a, **k):  # no parameter names of its own: `self=` is a legal keyword for the caller
+            return f(*a[1:], **k)
+
+    stores = []
+
+    def make(i):
+        """(callable, positional arguments, keyword arguments) of the i-th wrapped callable"""
+        if kind == "named":
+            return named, [], dict(case["kwargs"])
+        if kind == "partial":
+            return functools.partial(f, 100, p=1), list(case["args"]), dict(case["kwargs"])
+        if kind == "instance":
+            return Inst(), list(case["args"]), dict(case["kwargs"])
+        if kind == "builtin":
+            st = {"k": ret}
+            stores.append(st)
+            return operator.getitem, [st, "missing" if case["exc"] else "k"], {}
+        if kind == "cmethod":
+            st = {"k": ret}
+            stores.append(st)
+            return st.pop, ["missing" if case["exc"] else "k"], {}
+        return f, list(case["args"]), dict(case["kwargs"])
 
     msgs = []
     mlock = threading.Lock()
@@ -1235,51 +1281,74 @@ def preserve_case(case):
     def body():
         try:
             if not case["in_action"]:
-                g = eliot.preserve_context(f)
-                o["identity"] = g is f
+                fn = make(0)[0]
+                g = eliot.preserve_context(fn)
+                o["identity"] = g is fn
                 return
             how = case.get("how") or ("thread" if case.get("thread") else "fresh")
             outs = []
+            made = [make(i) for i in range(case["n"])]
             gs = []
 
+            def once(g, a, k):
+                try:
+                    r = g(*a, **k)
+                    return "ret" if r is ret else "other:%r" % (r,)
+                except TooManyCalls:
+                    return "TooManyCalls"
+                except BaseException as e:  # noqa
+                    return "exc" if (exc is not None and e is exc) else "raised:" + type(e).__name__
+
+            def call(g, a, k):
+                outs.append([once(g, a, k) for _ in range(case["calls"])])
+
+            def race(g, a, k):
+                res = [None] * case["calls"]
+                barrier = threading.Barrier(case["calls"])
+
+                def one(j):
+                    try:
+                        barrier.wait(TIMEOUT)
+                    except Exception:  # noqa
+                        pass
+                    res[j] = once(g, a, k)
+
+                ts = [threading.Thread(target=one, args=(j,), daemon=True) for j in range(case["calls"])]
+                for t in ts:
+                    t.start()
+                for t in ts:
+                    t.join(TIMEOUT)
+                outs.append(sorted(res, key=lambda x: (x == "TooManyCalls", str(x))))
+
             def invoke_all():
-                for g in gs:
+                for g, (fn, a, k) in zip(gs, made):
+                    if how == "race":
+                        race(g, a, k)
+                        continue
                     if how == "thread":
-                        t = threading.Thread(target=call, args=(g,), daemon=True)
+                        t = threading.Thread(target=call, args=(g, a, k), daemon=True)
                     elif how == "ctxcopy":
-                        t = threading.Thread(target=contextvars.copy_context().run, args=(call, g), daemon=True)
+                        t = threading.Thread(target=contextvars.copy_context().run, args=(call, g, a, k), daemon=True)
                     else:
                         t = None
                     if t is not None:
                         t.start()
                         t.join(TIMEOUT)
                     elif how == "inline":
-                        call(g)
+                        call(g, a, k)
                     else:
-                        contextvars.Context().run(call, g)
-
-            def call(g):
-                res = []
-                for _ in range(case["calls"]):
-                    try:
-                        r = g(*case["args"], **case["kwargs"])
-                        res.append("ret" if r is ret else "other:%r" % (r,))
-                    except TooManyCalls:
-                        res.append("TooManyCalls")
-                    except BaseException as e:  # noqa
-                        res.append("exc" if e is exc else "raised:" + type(e).__name__)
-                outs.append(res)
+                        contextvars.Context().run(call, g, a, k)
 
             with eliot.start_action(action_type="app:p"):
-                gs += [eliot.preserve_context(f) for _ in range(case["n"])]
+                gs += [eliot.preserve_context(fn) for fn, _, _ in made]
                 if how in ("inline", "ctxcopy"):
                     # the originating action is the current action where the callable runs
                     invoke_all()
-            o["identity"] = any(g is f for g in gs)
+            o["identity"] = any(g is fn for g, (fn, _, _) in zip(gs, made))
             if how not in ("inline", "ctxcopy"):
                 invoke_all()
             o["outs"] = outs
-            o["calls"] = calls
+            o["calls"] = calls if kind in PY_KINDS else [sorted(st) for st in stores]
             o["levels"] = sorted(m.get("task_level") for m in msgs)
             o["uuids"] = len({m.get("task_uuid") for m in msgs})
         except BaseException as e:  # noqa
@@ -1305,14 +1374,23 @@ def oracle_preserve(case, o):
         return ["the real code raised: " + o["error"]]
     if not case["in_action"]:
         return [] if o.get("identity") is True else ["preserve_context(f) with no current action did not return f itself"]
+    kind = case.get("kind_f", "function")
     bad = []
     if o.get("identity"):
         bad.append("preserve_context(f) inside an action returned f itself")
-    want = [(["exc"] if case["exc"] else ["ret"]) + ["TooManyCalls"] * (case["calls"] - 1)] * case["n"]
+    # the one call that runs f: its result object / its exception object (for C callables: the exception class)
+    first = ("exc" if kind in PY_KINDS else "raised:KeyError") if case["exc"] else "ret"
+    want = [[first] + ["TooManyCalls"] * (case["calls"] - 1)] * case["n"]
     if o.get("outs") != want:
-        bad.append("calls of the preserved callable gave %s, expected %s" % (o.get("outs"), want))
-    if o.get("calls") != [[list(case["args"]), dict(case["kwargs"])]] * case["n"]:
-        bad.append("f was called with %s" % (o.get("calls"),))
+        bad.append("calls of the preserved %s gave %s, expected %s: exactly one runs it and hands back its result / exception, every other call raises TooManyCalls" % (
+            kind, o.get("outs"), want))
+    if kind in PY_KINDS:
+        pos = ([100] if kind == "partial" else []) + ([] if kind == "named" else list(case["args"]))
+        kw = dict(case["kwargs"], **({"p": 1} if kind == "partial" else {}))
+        if o.get("calls") != [[pos, kw]] * case["n"]:
+            bad.append("the wrapped %s was called with %s, expected %s" % (kind, o.get("calls"), [[pos, kw]] * case["n"]))
+    elif kind == "cmethod" and o.get("calls") != [(["k"] if case["exc"] else [])] * case["n"]:
+        bad.append("the wrapped bound method dict.pop was not called exactly once with the given key: dicts now hold %s" % (o.get("calls"),))
     # parent: [1] start, n reserved positions 2..n+1 each filled by a remote action of 2 messages, end at [n+2]
     want_levels = sorted([[1], [case["n"] + 2]] + [[k + 2, j] for k in range(case["n"]) for j in (1, 2)])
     if o.get("levels") != want_levels or o.get("uuids") != 1:
@@ -1322,14 +1400,20 @@ def oracle_preserve(case, o):
 
 def run_preserve(ctx):
     rng = ctx.rng("preserve")
-    cases = [dict(kind="preserve", in_action=False, exc=False, n=1, calls=1, how="fresh", args=[], kwargs={})]
-    for _ in range(ctx.budget(40, 600)):
-        cases.append(dict(kind="preserve", in_action=rng.random() < 0.9, exc=rng.random() < 0.4, n=rng.randint(1, 4), calls=rng.randint(1, 3),
-                          how=rng.choice(["thread", "thread", "fresh", "inline", "ctxcopy"]), args=[rng.randint(0, 9) for _ in range(rng.randint(0, 2))],
-                          kwargs={k: rng.randint(0, 9) for k in rng.sample(["a", "b"], rng.randint(0, 2))}))
+    cases = [dict(kind="preserve", in_action=False, exc=False, n=1, calls=1, how="fresh", kind_f="function", args=[], kwargs={})]
+    kinds = ["function"] * 5 + ["named"] * 4 + ["partial"] * 3 + ["instance"] * 3 + ["builtin", "cmethod"] * 2
+    for _ in range(ctx.budget(120, 1500)):
+        kf = rng.choice(kinds)
+        how = rng.choice(["thread", "thread", "fresh", "inline", "ctxcopy", "race", "race"])
+        cases.append(dict(kind="preserve", in_action=rng.random() < 0.93, exc=rng.random() < 0.4, n=rng.randint(1, 4),
+                          calls=(rng.randint(2, 4) if how == "race" else rng.randint(1, 3)), how=how, kind_f=kf,
+                          args=[rng.randint(0, 9) for _ in range(rng.randint(0, 2))],
+                          kwargs={k: rng.randint(0, 9) for k in rng.sample(KW_POOL, rng.randint(0 if kf != "named" else 1, 3))}))
     for c in cases:
         o = preserve_case(c)
-        ctx.case(c, nontrivial=c["in_action"] and (c["n"] >= 2 or c["calls"] >= 2), tags=["preserve:" + ("action" if c["in_action"] else "no-action"), "preserve-call:" + c["how"]])
+        ctx.case(c, nontrivial=c["in_action"] and (c["n"] >= 2 or c["calls"] >= 2),
+                 tags=["preserve:" + ("action" if c["in_action"] else "no-action"), "preserve-call:" + c["how"], "preserve-f:" + c["kind_f"]]
+                 + sorted("preserve-kw:" + k for k in c["kwargs"] if k not in ("a", "b")))
         for b in oracle_preserve(c, o):
             ctx.violation(b, dict(c, observed=o), key=None)
 
